@@ -183,3 +183,51 @@ Definition needs_quote_idx (data : bytes) : res bool :=
   | Panic => Panic
   | OutOfFuel => OutOfFuel
   end.
+
+(* ------------------------------------------------------------------ *)
+(* golang.org/x/tools/txtar.Format, statement by statement              *)
+
+(* fmt.Fprintf for a format made of literal text, %s verbs and %%, one string
+   argument per %s.  None = a format or an argument count this model does not cover
+   (other verbs, flags, missing or extra arguments). *)
+Fixpoint expand_s (f : bytes) (args : list bytes) : option bytes :=
+  match f with
+  | [] => match args with [] => Some [] | _ :: _ => None end
+  | b :: r =>
+      if beq b x25 then
+        match r with
+        | c :: r' =>
+            if beq c x73 then
+              match args with
+              | a :: args' => option_map (app a) (expand_s r' args')
+              | [] => None
+              end
+            else if beq c x25 then option_map (cons x25) (expand_s r' args)
+            else None
+        | [] => None
+        end
+      else option_map (cons b) (expand_s r args)
+  end.
+
+(* the loop  for _, f := range a.Files { fmt.Fprintf(&buf, "-- %s --\n", f.Name);
+   buf.Write(fixNL(f.Data)) }  with the buffer contents as accumulator *)
+Fixpoint format_files (fs : list (bytes * bytes)) (buf : bytes) : res bytes :=
+  match fs with
+  | [] => Ok buf
+  | (name, data) :: fs' =>
+      match expand_s xtools_format_string [name] with
+      | None => Panic
+      | Some line =>
+          match fix_nl_idx data with
+          | None => Panic
+          | Some d => format_files fs' ((buf ++ line) ++ d)
+          end
+      end
+  end.
+
+(* func Format(a *Archive) []byte: buf.Write(fixNL(a.Comment)); loop; buf.Bytes() *)
+Definition format_idx (a : archive) : res bytes :=
+  match fix_nl_idx (comment a) with
+  | None => Panic
+  | Some c => format_files (files a) c
+  end.
